@@ -15,7 +15,7 @@ RULE = ('streams from an independent encoder (harness/streams.py): payloads 1..1
         'Flow Control (reference frame from the extracted Coq Spec: ContinueToSend, configured blocksize/stmin, padding, id, prefix) '
         'after the First Frame and after every blocksize-th Consecutive Frame that does not complete the message; no error. '
         'Every case is replayed on the extracted model. non-trivial = distinct cases')
-ASSUME = ['frames of one message are processed within rx_consecutive_frame_timeout of each other (no clock tick in these cases)']
+ASSUME = ['frames of one message are processed within rx_consecutive_frame_timeout of each other (gaps of 0 or 0.45 x the timeout)']
 
 
 def gen_case(rng, tier):
@@ -35,8 +35,15 @@ def gen_case(rng, tier):
     ops = []
     i = 0
     batch = rng.choice([1, 1, 2, 3, 7, len(frames)])
+    # a slow but timely sender: every gap stays below rx_consecutive_frame_timeout, the whole message takes much longer
+    slow = len(frames) > 3 and len(frames) < 400 and rng.random() < 0.3
+    gap = int(p.get('rx_consecutive_frame_timeout', 1000) * 10**6 * 0.45)
+    if slow:
+        batch = 1
     while i < len(frames):
         k = batch if batch else 1
+        if slow and i > 0:
+            ops.append([0, 'tick', gap])
         for f in frames[i:i + k]:
             ops.append([0, 'rx', rid, int(ext), hx(f)])
         i += k
